@@ -95,9 +95,11 @@ def _pick_distinct(rng, pool, n, avoid=()):
 
 def gen_struct(rng, name, qual, must=()):
     """must: field names that have to be present (they come first and carry no alias tag unless listed as 'name=alias')"""
-    nf = rng.randint(1, 5)
-    names = []
+    nf = max(rng.randint(1, 5), len(must))
+    names = list(must)
     for n in _pick_distinct(rng, list(dict.fromkeys(rng.sample(STRUCT_FIELD_NAMES, len(STRUCT_FIELD_NAMES)))), len(set(STRUCT_FIELD_NAMES))):
+        if len(names) >= nf:
+            break
         # a getter must not collide with an exported field or another getter of the struct
         taken = {x if x[0].isupper() else getter_name(x) for x in names}
         me = n if n[0].isupper() else getter_name(n)
@@ -113,7 +115,7 @@ def gen_struct(rng, name, qual, must=()):
         ptr = rng.random() < 0.3
         exported = n[0].isupper()
         alias = None
-        if rng.random() < 0.4:
+        if n not in must and rng.random() < 0.4:
             c = [a for a in ALIAS_NAMES + ["name", "size"] if a not in used_alias and re.fullmatch(r"\w+", a, re.ASCII)]
             # `alias=(\w+)` takes word characters only
             if c:
@@ -121,7 +123,8 @@ def gen_struct(rng, name, qual, must=()):
                 used_alias.add(alias)
         group = [n]
         # a multi-name declaration (shares type and tag); only without alias so that the keys stay distinct
-        if alias is None and i + 1 < len(names) and rng.random() < 0.25 and (names[i + 1][0].isupper() == exported):
+        if alias is None and n not in must and i + 1 < len(names) and names[i + 1] not in must and rng.random() < 0.25 \
+                and (names[i + 1][0].isupper() == exported):
             group.append(names[i + 1])
             i += 1
         fields.append({"names": group, "gotype": gotype, "ptr": ptr, "alias": alias,
@@ -274,13 +277,56 @@ def gen_iface_pkg(rng, name, n_ifaces=2, methods_per_iface=(2, 4), with_qual=Non
         st["other_file"] = rng.random() < 0.35         # declared in another file of the package (repaired K_rest_struct_other_file)
         pkg["structs"].append(st)
     if with_qual:
-        q = {"name": "q" + name, "structs": [gen_struct(rng, "QReq%d" % i, True) for i in range(rng.randint(1, 2))]}
-        for st in q["structs"]:
-            st["qual"] = q["name"]
-        pkg["qpkg"] = q
+        # one or two helper packages; their structs carry unexported getter-backed fields on purpose, and some of them
+        # have the NAME of a struct of the package itself or of the other helper package (different field lists)
+        pkg["qpkgs"] = []
+        for hp in (["q", "r"] if rng.random() < 0.5 else ["q"]):
+            q = {"name": hp + name, "structs": []}
+            taken = set()
+            for i in range(rng.randint(1, 2)):
+                sname = "QReq%d" % i
+                if rng.random() < 0.5:
+                    sname = rng.choice([x["name"] for x in pkg["structs"]])
+                if sname in taken:
+                    sname = "QReq%d" % i
+                taken.add(sname)
+                must = tuple(_pick_distinct(rng, ["userID", "orgID", "user_name", "secret", "tok", "httpCode"], rng.randint(0, 2)))
+                st = gen_struct(rng, sname, True, must=must)
+                st["qual"] = q["name"]
+                q["structs"].append(st)
+            pkg["qpkgs"].append(q)
+        pkg["qpkg"] = pkg["qpkgs"][0]
     for i in range(n_ifaces):
         nm = rng.randint(*methods_per_iface)
         pkg["ifaces"].append(gen_iface(rng, "C%d" % i, pkg, nm, verbs))
+    return pkg
+
+
+def gen_coverage_pkg(rng, name):
+    """a package that always contains the combinations a random draw may miss: the package's own struct Req0 and two helper
+    packages that each declare a DIFFERENT struct of the same name Req0; every one of them has unexported getter-backed
+    untagged fields (names that ToCamelCase would change), exported and pointer fields; each is a GET, a DELETE and a body
+    parameter, by value and by pointer, inside one interface and across two interfaces of the same run"""
+    pkg = {"name": name, "structs": [], "qpkg": None, "qpkgs": [], "ifaces": []}
+    own = gen_struct(rng, "Req0", False, must=("userID", "Name", "secret"))
+    own["other_file"] = rng.random() < 0.5
+    pkg["structs"].append(own)
+    musts = {"q": ("orgID", "Kind", "user_name"), "r": ("httpCode", "HTTPCode", "tok")}
+    for hp in ("q", "r"):
+        st = gen_struct(rng, "Req0", True, must=musts[hp])
+        st["qual"] = hp + name
+        pkg["qpkgs"].append({"name": hp + name, "structs": [st]})
+    pkg["qpkg"] = pkg["qpkgs"][0]
+    types = [own] + [q["structs"][0] for q in pkg["qpkgs"]]
+    combos = [(st, ptr, verb) for st in types for ptr in (False, True) for verb in ("GET", "DELETE")]
+    combos += [(types[1], False, "POST"), (types[2], True, "PUT"), (types[0], True, "PATCH")]
+    rng.shuffle(combos)
+    half = len(combos) // 2
+    for k, part in enumerate((combos[:half], combos[half:])):
+        ifc = gen_iface(rng, "C%d" % k, pkg, 0)
+        for i, (st, ptr, verb) in enumerate(part):
+            ifc["methods"].append(gen_method(rng, "M%d" % i, pkg, verb, force_struct=(st, ptr)))
+        pkg["ifaces"].append(ifc)
     return pkg
 
 
@@ -382,6 +428,8 @@ def uses(pkg, what):
                     return True
                 if what == "qual" and ((p["kind"] == "struct" and p["qual"]) or p.get("qscalar")):
                     return True
+                if (p["kind"] == "struct" and p["qual"] == what) or (p.get("qscalar") and p.get("qname") == what):
+                    return True
     return False
 
 
@@ -393,8 +441,9 @@ def render_go(pkg, modname):
     imports.append('"net/http"')
     imports.append("")
     imports.append('"github.com/lopolopen/shoot"')
-    if pkg["qpkg"] and uses(pkg, "qual"):
-        imports.append('"%s/%s"' % (modname, pkg["qpkg"]["name"]))
+    for q in helpers(pkg):
+        if uses(pkg, q["name"]):
+            imports.append('"%s/%s"' % (modname, q["name"]))
     src = ["package %s" % pkg["name"], "", "import ("] + ["\t" + i if i else "" for i in imports] + [")", ""]
     src.append("type Status string")
     src.append("")
@@ -408,9 +457,8 @@ def render_go(pkg, modname):
     files = {"%s/%s.go" % (pkg["name"], pkg["name"]): "\n".join(src)}
     if len(other) > 2:
         files["%s/%s_types.go" % (pkg["name"], pkg["name"])] = "\n".join(other)
-    if pkg["qpkg"]:
-        q = pkg["qpkg"]
-        qs = ["package %s" % q["name"], ""] + ["type %s %s\n" % (n, b) for n, b in sorted(QSCALARS.items())]
+    for k, q in enumerate(helpers(pkg)):
+        qs = ["package %s" % q["name"], ""] + (["type %s %s\n" % (n, b) for n, b in sorted(QSCALARS.items())] if k == 0 else [])
         for st in q["structs"]:
             qs.append(render_struct(st))
         files["%s/%s.go" % (q["name"], q["name"])] = "\n".join(qs)
@@ -425,7 +473,7 @@ def doc_text_lines(lines):
 
 
 def struct_of(pkg, p):
-    pool = pkg["qpkg"]["structs"] if p["qual"] else pkg["structs"]
+    pool = next(q for q in helpers(pkg) if q["name"] == p["qual"])["structs"] if p["qual"] else pkg["structs"]
     return next(s for s in pool if s["name"] == p["struct"])
 
 
@@ -449,10 +497,10 @@ def coq_env(pkg):
         structs.append('(("", %s), %s)' % (coq_str(s["name"]), coq_list(coq_field_decl(f) for f in s["fields"])))
     structs.append('(("", "Res"), [{| fd_names := ["ID"]; fd_type := "int"; fd_star := false; fd_tag := Some %s |}])'
                    % coq_str('`json:"id"`'))
-    if pkg["qpkg"]:
-        q = pkg["qpkg"]
-        for n in sorted(QSCALARS):
-            sel.append("((%s, %s), SelBasic)" % (coq_str(q["name"]), coq_str(n)))
+    for k, q in enumerate(helpers(pkg)):
+        if k == 0:
+            for n in sorted(QSCALARS):
+                sel.append("((%s, %s), SelBasic)" % (coq_str(q["name"]), coq_str(n)))
         for s in q["structs"]:
             sel.append("((%s, %s), SelNamed)" % (coq_str(q["name"]), coq_str(s["name"])))
             structs.append("((%s, %s), %s)" % (coq_str(q["name"]), coq_str(s["name"]),
@@ -961,7 +1009,7 @@ func main() {
 
 def render_driver(modname, clients, cases):
     """clients: [(var, pkgname, ifacename, base prefix)]; cases: [(id, client var, method, pkg, args)]"""
-    cand = sorted({c[1] for c in clients} | {c[3]["qpkg"]["name"] for c in cases if c[3]["qpkg"]})
+    cand = sorted({c[1] for c in clients} | {q["name"] for c in cases for q in helpers(c[3])})
     out = [None]
     for var, pkgname, iname, prefix in clients:
         burl = go_str("http://[::1") if prefix == INVALID_BASE else "base + %s" % go_str(prefix)
